@@ -1,3 +1,4 @@
+import ShellOp.Generated.Facts
 /-!
 # Model of the admission webhook chain (C14)
 
@@ -74,7 +75,8 @@ def detect (path : Str) : Str × Str :=
   | [] => ([], [])
   | conf :: rest => (conf, joinSlash rest)
 
-def defaultConfigurationId : Str := "hooks".toList
+/-- `DefaultConfigurationId` (manager.go), regenerated from the source on every run -/
+def defaultConfigurationId : Str := ShellOp.Facts.c14DefaultConfigurationId.toList
 
 /-- `createWebhookPath` after `UpdateIds("", bindingName)` -/
 def registeredPath (bindingName : Str) : Str :=
@@ -97,13 +99,17 @@ structure Hook where
   bindings : List Binding
   deriving DecidableEq, Repr
 
+/-- `c.AdmissionLinks[webhookId] = link` -/
+def linkPut (m : List (Str × Binding)) (b : Binding) : List (Str × Binding) :=
+  if m.any (fun e => e.1 == safeURL b.name) then
+    m.map (fun e => if e.1 = safeURL b.name then (safeURL b.name, b) else e)
+  else m ++ [(safeURL b.name, b)]
+
 /-- `AdmissionLinks` of one hook's controller after `EnableValidatingBindings` then
 `EnableMutatingBindings`: webhook id → binding; a later binding with the same id overwrites -/
 def hookLinks (h : Hook) : List (Str × Binding) :=
-  let put := fun (m : List (Str × Binding)) (b : Binding) =>
-    let k := safeURL b.name
-    if m.any (fun e => e.1 == k) then m.map (fun e => if e.1 = k then (k, b) else e) else m ++ [(k, b)]
-  ((h.bindings.filter (·.kind = .validating)) ++ (h.bindings.filter (·.kind = .mutating))).foldl put []
+  ((h.bindings.filter (fun b => b.kind == .validating)) ++
+    (h.bindings.filter (fun b => b.kind == .mutating))).foldl linkPut []
 
 /-- the controller's `ConfigurationId`: `"hooks"` as soon as the hook has an admission binding -/
 def hookConf (h : Hook) : Str := if h.bindings.isEmpty then [] else defaultConfigurationId
@@ -114,8 +120,8 @@ def canHandle (h : Hook) (conf wid : Str) : Option Binding :=
 /-- `HandleAdmissionEvent`: validating hooks in order, then mutating hooks in order; every hit
 overwrites `admissionTask` — the last one is run -/
 def route (hooks : List Hook) (conf wid : Str) : Option (Nat × Binding) :=
-  let vHooks := hooks.filter (fun h => h.bindings.any (·.kind = .validating))
-  let mHooks := hooks.filter (fun h => h.bindings.any (·.kind = .mutating))
+  let vHooks := hooks.filter (fun h => h.bindings.any (fun b => b.kind == .validating))
+  let mHooks := hooks.filter (fun h => h.bindings.any (fun b => b.kind == .mutating))
   (vHooks ++ mHooks).foldl (fun acc h =>
     match canHandle h conf wid with
     | some b => some (h.id, b)
